@@ -21,7 +21,15 @@ def slice_blob(b, lo, hi):
     """Sub-range [lo, hi) of a blob, as a blob."""
     def tt(x):
         return x.t if isinstance(x, SInt) else x
-    return Blob(('slice', b.key, tt(lo), tt(hi)), hi - lo)
+    base = b
+    if b.key[0] == 'slice' and b.base is not None:
+        # a slice of a slice is a slice of the base
+        base = b.base
+        off = b.key[2]
+        off = SInt(off) if not isinstance(off, int) else off
+        lo2, hi2 = off + lo, off + hi
+        return Blob(('slice', base.key, tt(lo2), tt(hi2)), hi - lo, base=base)
+    return Blob(('slice', b.key, tt(lo), tt(hi)), hi - lo, base=base)
 
 
 class ByteReader(object):
@@ -33,6 +41,12 @@ class ByteReader(object):
 
     def remaining(self):
         return SBytes(self.rest)
+
+    def skip_empty(self, I):
+        """Drop leading blobs whose length is zero on the current path (they denote no bytes)."""
+        while self.rest and isinstance(self.rest[0], Blob) and not isinstance(self.rest[0].length, int) \
+                and I.E.implied(self.rest[0].length == 0):
+            self.rest.pop(0)
 
     def take(self, I, n):
         rest = self.rest
